@@ -270,3 +270,25 @@ pub fn web3v1(ctx: &mut Tasks) {
     ent!(ctx, VerificationRequest, vec![vreq.clone()], 2);
     ent!(ctx, VerificationAuditRecord, vec![VerificationAuditRecord::new("audit-1".into(), vreq, pres)]);
 }
+
+/// Parts of requests, credentials and presentations that are `Serial/Deserial` types of their own.
+pub fn idmisc(ctx: &mut Tasks) {
+    use concordium_base::{base::BakerKeyPairs, transactions::{BakerAddKeysPayload, BakerUpdateKeysPayload, ConfigureBakerKeysPayload}};
+    use concordium_base::contracts_common::AccountAddress;
+    let idf = crate::c05b::id_fix(ctx.seed);
+    let pio = &idf.pio;
+    ent!(ctx, PublicInformationForIp<C>, vec![pio.pub_info_for_ip.clone()]);
+    ent!(ctx, IpArData<C>, pio.ip_ar_data.values().cloned().collect());
+    ent!(ctx, ChoiceArParameters, vec![pio.choice_ar_parameters.clone()], 2);
+    ent!(ctx, InitialCredentialDeploymentValues<C, AttributeKind>, vec![idf.initial.values.clone()]);
+    ent!(ctx, CredentialValidity, vec![CredentialValidity { valid_to: YearMonth::new(9999, 12).unwrap(), created_at: YearMonth::new(1000, 1).unwrap() }, CredentialValidity { valid_to: YearMonth::new(2024, 5).unwrap(), created_at: YearMonth::new(2020, 5).unwrap() }], 1);
+    ent!(ctx, SchemeId, vec![SchemeId::Ed25519], 1);
+    let kp = BakerKeyPairs::generate(&mut rng(ctx.seed, 8800));
+    ent!(ctx, BakerAddKeysPayload, vec![BakerAddKeysPayload::new(&kp, AccountAddress([1u8; 32]), &mut rng(ctx.seed, 8801))]);
+    ent!(ctx, BakerUpdateKeysPayload, vec![BakerUpdateKeysPayload::new(&kp, AccountAddress([1u8; 32]), &mut rng(ctx.seed, 8802))]);
+    ent!(ctx, ConfigureBakerKeysPayload, vec![ConfigureBakerKeysPayload::new(&kp, AccountAddress([1u8; 32]), &mut rng(ctx.seed, 8803))]);
+    let enc = crate::c05b::enc_fix(ctx.seed);
+    ent!(ctx, Hx<concordium_base::encrypted_transfers::types::IndexedEncryptedAmount<C>>, vec![Hx(concordium_base::encrypted_transfers::types::IndexedEncryptedAmount { encrypted_chunks: enc.amount.clone(), index: 0u64.into() }), Hx(concordium_base::encrypted_transfers::types::IndexedEncryptedAmount { encrypted_chunks: enc.amount.clone(), index: u64::MAX.into() })]);
+    ent!(ctx, concordium_base::random_oracle::Challenge, vec![enc.transfer.proof.accounting.challenge]);
+    ent!(ctx, concordium_base::bulletproofs::utils::Generators<C>, vec![concordium_base::bulletproofs::utils::Generators { G_H: vec![] }, idf.global.bulletproof_generators().take(2)]);
+}
